@@ -872,6 +872,39 @@ impl Checker<'_> {
         } else {
             self.v("C12", "second-prune-fails", "streaming_process".into(), "pruning the pruned journal again failed".into(), case.clone());
         }
+        // crash during an earlier prune: the server died after (part of) `<journal>.tmp` was
+        // written and before the rename; it restarted from the intact journal, went on, and now
+        // prunes again. The leftover must not influence the result. A real leftover is the pruned
+        // copy of an earlier prefix of this journal, complete or cut anywhere.
+        if records.len() >= 2 {
+            let early = dir.join("early.journal");
+            write_journal(&early, &records[..records.len() / 2]);
+            if let Ok(Ok(())) = catch_unwind(AssertUnwindSafe(|| real_prune(&early, live_jobs, live_workers, &[]))) {
+                let leftover = std::fs::read(&early).unwrap_or_default();
+                let clean = std::fs::read(&pruned).unwrap_or_default();
+                for (kind, bytes) in [("leftover-complete", leftover.clone()), ("leftover-torn", leftover[..leftover.len() - leftover.len() / 3].to_vec())] {
+                    let p4 = dir.join("pruned4.journal");
+                    std::fs::copy(&orig, &p4).unwrap();
+                    std::fs::write(dir.join("pruned4.journal.tmp"), &bytes).unwrap();
+                    match catch_unwind(AssertUnwindSafe(|| real_prune(&p4, live_jobs, live_workers, &[]))) {
+                        Ok(Ok(())) => {
+                            if std::fs::read(&p4).unwrap_or_default() != clean {
+                                self.v(
+                                    "C12",
+                                    "stale-tmp-file-changes-prune",
+                                    kind.into(),
+                                    format!("a {kind} `<journal>.tmp` of an interrupted earlier prune ({} bytes) changes the journal this prune produces ({} bytes instead of {})", bytes.len(), std::fs::read(&p4).map(|b| b.len()).unwrap_or(0), clean.len()),
+                                    case.clone(),
+                                );
+                            }
+                        }
+                        _ => self.v("C12", "prune-fails-with-stale-tmp-file", kind.into(), format!("prune failed or panicked with a {kind} `<journal>.tmp` present"), case.clone()),
+                    }
+                    let _ = std::fs::remove_file(dir.join("pruned4.journal.tmp"));
+                }
+            }
+            crate::common::take_swallowed_panic();
+        }
         // restart from both
         self.restores += 2;
         let a = restore_from(self.sc, &orig);
